@@ -58,6 +58,16 @@ def _ids_of_part(part):
     return c
 
 
+def _all_ids_of_part(part):
+    """Every unqualified @id in the part, on whatever element ("every id already used in its slide-like part")."""
+    root = refpkg.parse(part.blob)
+    c = collections.Counter()
+    for el in root.iter():
+        if isinstance(el.tag, str) and el.get("id") is not None:
+            c[el.get("id")] += 1
+    return c
+
+
 def _digest_shape(sh):
     d = {"cls": type(sh).__name__, "name": sh.name}
     if sh.has_text_frame:
@@ -91,7 +101,7 @@ class IdOracle(Oracle):
             names[str(part.partname)] += 1
             el = getattr(part, "_element", None)
             if el is not None and el.tag in (PML + "sld", PML + "notes"):
-                st["parts"][id(part)] = (part, _ids_of_part(part))
+                st["parts"][id(part)] = (part, _ids_of_part(part), _all_ids_of_part(part))
             if el is not None:
                 refs = {v for _a, v in refpkg.xml_rid_refs(part.blob) if v}
                 rels = {}
@@ -121,11 +131,18 @@ class IdOracle(Oracle):
 
     def _compare(self, w, deck, old, new, ev):
         # 1. new shape ids fresh, positive ints
-        for pid, (part, ids) in new["parts"].items():
-            before = old["parts"].get(pid, (None, collections.Counter()))[1]
+        for pid, (part, ids, _all) in new["parts"].items():
+            before = old["parts"].get(pid, (None, collections.Counter(), collections.Counter()))[1]
+            before_all = old["parts"].get(pid, (None, collections.Counter(), collections.Counter()))[2]
             added = ids - before
             for v, n in added.items():
                 w.stats.hit("c06_new_shape_ids", n)
+                if before_all[v] - before[v] > 0:
+                    # the id was already carried by an element that is not a shape of the tree (timing node, extension, nested drawing)
+                    w.report("shape-id|collision|with-id-on-another-element", "part=%s new shape id=%r; elements carrying it before: %d" % (
+                        part.partname, v, before_all[v]), CLAUSES["shape-id"])
+                if before_all[v] - before[v] == 0 and sum(before_all.values()) > sum(before.values()):
+                    w.stats.hit("c06_new_shape_id_on_part_with_foreign_ids")
                 ok_int = v is not None and v.isascii() and v.isdigit() and int(v) > 0
                 if not ok_int:
                     w.report("shape-id|not-positive-int", "part=%s id=%r" % (part.partname, v), CLAUSES["shape-id"])
@@ -276,7 +293,7 @@ def plan(tier):
 
 ID_DECKS = ["default.pptx", "f-shp-shapes.pptx", "f-shp-groupshape.pptx", "t-test_slides.pptx", "f-sld-slides.pptx",
             "f-shp-common-props.pptx", "f-ph-unpopulated-placeholders.pptx", "f-shp-picture.pptx", "f-prs-add-slide.pptx",
-            "f-shp-connector-props.pptx", "f-cht-charts.pptx", "f-sld-notes.pptx"]
+            "f-shp-connector-props.pptx", "f-cht-charts.pptx", "f-sld-notes.pptx", "f-shp-movie-props.pptx", "f-cht-series.pptx"]
 
 
 def gen_trace(seed: int, tier: str) -> dict:
@@ -288,9 +305,14 @@ def gen_trace(seed: int, tier: str) -> dict:
     xf = []
     if rs.random() < 0.7:
         xf.append({"kind": "ids", "mode": rs.choice(["gaps", "high", "dups", "nonnumeric", "names", "mixed", "slideids-max",
-                                                     "slideids-gaps", "slideids-max"]), "seed": rs.randint(0, 999)})
+                                                     "slideids-gaps", "slideids-max", "foreign", "foreign"]), "seed": rs.randint(0, 999)})
     if rs.random() < 0.3:
         xf.append({"kind": "rename_slides", "mode": rs.choice(["reverse", "rotate", "gaps", "shuffle", "lastfits", "firstbig"]), "seed": rs.randint(0, 99)})
+    if rs.random() < 0.3:
+        for fam in rs.sample(["charts", "themes", "notes", "media", "embeddings"], rs.choice([1, 2])):
+            xf.append({"kind": "renumber", "family": fam, "mode": rs.choice(["odd", "shift", "sparse", "reverse"]), "seed": rs.randint(0, 99)})
+    if rs.random() < 0.25:
+        xf.append({"kind": "respell_rids", "style": rs.choice(["mixed", "hex", "padded", "sparse", "words"]), "seed": rs.randint(0, 99)})
     if xf:
         start["xform"] = xf
     turbo = r.random() < 0.25
